@@ -1,6 +1,6 @@
 """Internet Relay Chat message"""
 
-from .utils import parsemsg
+from .utils import joinprefix, parsemsg
 
 
 class Error(Exception):
@@ -18,9 +18,14 @@ class Message:
         self._check_args()
 
     def _check_args(self):
+        command = '' if self.command is None else str(self.command)
+        if not command or command.startswith(':') or any(c in command for c in ' \r\n'):
+            raise Error('Command must not be empty, start with a colon or contain space, CR or LF')
+        if self.prefix is not None and any(c in self.prefix for c in ' \r\n'):
+            raise Error('No space, CR or LF allowed in prefix')
         if any(type(arg)(' ') in arg in arg for arg in self.args[:-1] if isinstance(arg, str)):
             raise Error('Space can only appear in the very last arg')
-        if any(type(arg)('\n') in arg for arg in self.args if isinstance(arg, str)):
+        if any(type(arg)(c) in arg for arg in self.args if isinstance(arg, str) for c in '\r\n'):
             raise Error('No newline allowed')
 
     @staticmethod
@@ -28,9 +33,13 @@ class Message:
         if len(s) > 512:
             raise Error('Message must not be longer than 512 characters')
 
-        prefix, command, args = parsemsg(s)
+        (nick, user, host), command, args = parsemsg(s)
 
-        return Message(command, *args, prefix=prefix)
+        if user is not None or host is not None:
+            nick = joinprefix(nick, user, host)
+        if nick is None:
+            return Message(command, *args)
+        return Message(command, *args, prefix=nick)
 
     def __bytes__(self):
         return str(self).encode(self.encoding)
